@@ -66,4 +66,4 @@ REG.ghost('asgi_status', List(INT))   # status of every http.response.start mess
 REG.ghost('asgi_ctype', List(BYTES))  # (name, value) of the single header of every start message, flattened
 REG.ghost('callbacks', INT)           # number of lifespan callbacks invoked
 REG.ghost('cb_raised', INT)           # number of lifespan callbacks that raised
-REG.ghost('http_bodies', List(STR))   # bodies of the HTTP requests a client handed to its HTTP library
+REG.ghost('http_bodies', List(ANY))   # bodies of the HTTP requests a client handed to its HTTP library
